@@ -435,8 +435,38 @@ impl LazySeq {
     /// mutex: the whole interpreter deadlocks. `lock_py_attached` detaches from the
     /// interpreter while it waits.
     fn lock_state(&self, py: Python<'_>) -> ReentrantMutexGuard<'_, RefCell<LazySeqState>> {
+        // Verification hook (off unless BASILISP_VERIF_SIM=1 registered a callable): a
+        // contended acquisition calls back into the deterministic scheduler instead of
+        // blocking natively. The mutex itself is still what arbitrates.
+        if let Some(hook) = VERIF_CONTENTION_HOOK.get(py) {
+            loop {
+                if let Some(guard) = self.lock.try_lock() {
+                    return guard;
+                }
+                if hook.call0(py).is_err() {
+                    panic!("basilisp verification contention hook aborted the wait");
+                }
+            }
+        }
         self.lock.lock_py_attached(py)
     }
+}
+
+/// Verification-only: slot for the contention callback used by the deterministic
+/// simulator in /verif. Never set in normal operation.
+static VERIF_CONTENTION_HOOK: PyOnceLock<Py<PyAny>> = PyOnceLock::new();
+
+/// Register a callable invoked whenever a LazySeq state lock is found contended.
+/// Refuses to do anything unless the environment variable BASILISP_VERIF_SIM is "1".
+#[pyfunction]
+pub fn _verif_set_contention_hook(py: Python<'_>, hook: Py<PyAny>) -> PyResult<()> {
+    if std::env::var("BASILISP_VERIF_SIM").as_deref() != Ok("1") {
+        return Err(pyo3::exceptions::PyRuntimeError::new_err(
+            "verification hooks are disabled (BASILISP_VERIF_SIM is not 1)",
+        ));
+    }
+    let _ = VERIF_CONTENTION_HOOK.set(py, hook);
+    Ok(())
 }
 
 #[pymethods]
